@@ -1,7 +1,677 @@
-/- Model `Engine` (driver token `engine`) — stub, to be filled in. -/
-namespace Stab.Engine
+/-
+  Executable model of the message-driven engine: durable state × queue, one handler per message
+  type, each returning the list of transactions it commits (in order).  Written to read like the
+  Python handlers (`src/stabilize/handlers/*`); tied to them by the Mode-A trace differential
+  (`harness/engine.py`: same workflow spec + same op list → same state line after every op).
 
-/-- driver entry: the rest of the request line after the model token -/
-def drive (_rest : String) : String := "unimplemented"
+  Scope (workflow class W0–W4 of DESIGN.md): top-level stages only (no synthetic stages), all join
+  types, scripted tasks, cancel, jumps, suspend/signals.  Not modelled: mutex / deferred choice
+  (see `Claims`), OR-split conditions, timeouts, pause/resume.
+-/
+import Stab.Model.Ready
+import Stab.Model.Jump
+
+namespace Stab.Engine
+open Stab
+
+/-! ## configuration -/
+
+/-- what the scripted task does on its n-th execution -/
+inductive Outcome where
+  | succ | terminal | failedContinue | stopped | canceled | skipped | redirect
+  | running | suspend | transient | permanent
+  | jump (target : Nat)
+  deriving DecidableEq, Repr, Inhabited
+
+structure StageCfg where
+  reqs : List Nat
+  join : JoinType
+  threshold : Int
+  cont : Bool                 -- context["continuePipelineOnFailure"]
+  failp : Bool                -- context["failPipeline"] (default True)
+  enabled : Option Bool       -- context["stageEnabled"]
+  maxj : Option Int           -- context["_max_jumps"]
+  tasks : List (List Outcome) -- per task: outcome per execution, the last one repeats
+  deriving Repr, Inhabited
+
+structure Cfg where
+  wfMaxj : Option Int
+  stages : List StageCfg
+  waitMax : Nat := 2          -- max_stage_wait_retries (harness sets it small)
+  maxAttempts : Nat := 10     -- RunTask.max_attempts default
+  deriving Repr, Inhabited
+
+def Cfg.stage (c : Cfg) (i : Nat) : StageCfg := c.stages.getD i default
+def Cfg.n (c : Cfg) : Nat := c.stages.length
+def Cfg.reqs (c : Cfg) (i : Nat) : List Nat := (c.stage i).reqs
+/-- `get_downstream_stages`: stages that list `i` as a requisite, in table (= creation) order -/
+def Cfg.down (c : Cfg) (i : Nat) : List Nat :=
+  (List.range c.n).filter (fun j => (c.reqs j).contains i)
+def Cfg.graph (c : Cfg) : Jump.Graph := c.stages.map (·.reqs)
+
+/-! ## state -/
+
+abbrev KV := List (Nat × Nat)
+
+def KV.set : KV → Nat → Nat → KV
+  | [], k, v => [(k, v)]
+  | (k', v') :: rest, k, v =>
+    if k == k' then (k, v) :: rest
+    else if k < k' then (k, v) :: (k', v') :: rest
+    else (k', v') :: KV.set rest k v
+
+/-- `base.update(over)` -/
+def KV.merge (base over : KV) : KV := over.foldl (fun m kv => KV.set m kv.1 kv.2) base
+
+structure TaskSt where
+  status : Status := .notStarted
+  started : Bool := false             -- start_time is not None
+  deriving DecidableEq, Repr, Inhabited
+
+structure StageSt where
+  status : Status := .notStarted
+  version : Nat := 0
+  startSet : Bool := false            -- start_time is not None
+  tasks : List TaskSt := []
+  joinFired : Bool := false           -- context["_join_fired"]
+  jumpBypass : Bool := false          -- context["_jump_bypass"]
+  hasEx : Bool := false               -- "exception" in context
+  completed : List Nat := []          -- context["_completed_branches"]
+  jumpCount : Option Int := none      -- context["_jump_count"]
+  buffered : Nat := 0                 -- len(context["_buffered_signals"])
+  data : KV := []                     -- context["v<k>"] entries
+  outputs : KV := []                  -- outputs["v<k>"] entries
+  deriving DecidableEq, Repr, Inhabited
+
+inductive Msg where
+  | startWorkflow
+  | startStage (s : Nat) (retry : Nat)
+  | startTask (s t : Nat)
+  | runTask (s t : Nat)
+  | completeTask (s t : Nat) (st : Status)
+  | completeStage (s : Nat)
+  | skipStage (s : Nat)
+  | cancelStage (s : Nat)
+  | completeWorkflow (retry : Nat)
+  | cancelWorkflow
+  | jumpToStage (src tgt : Nat)
+  | signalStage (s : Nat) (persistent : Bool)
+  deriving DecidableEq, Repr, Inhabited
+
+structure Row where
+  id : Nat
+  msg : Msg
+  attempts : Nat := 0
+  deriving DecidableEq, Repr, Inhabited
+
+/-- an executed task: (stage, task, n-th execution, the `v*` context it was handed) -/
+structure Exec where
+  s : Nat
+  t : Nat
+  n : Nat
+  seen : KV
+  deriving DecidableEq, Repr
+
+inductive Ent where
+  | wf | stage (s : Nat) | task (s t : Nat)
+  deriving DecidableEq, Repr
+
+structure AuditRow where
+  ent : Ent
+  old : Status
+  new : Status
+  deriving DecidableEq, Repr
+
+structure State where
+  wfStatus : Status := .notStarted
+  canceled : Bool := false
+  stages : List StageSt := []
+  queue : List Row := []
+  nextId : Nat := 1
+  processed : List Nat := []
+  -- outside the engine / ghost
+  execCount : List ((Nat × Nat) × Nat) := []
+  ledger : List Exec := []
+  audit : List AuditRow := []
+  deriving Repr, Inhabited
+
+def State.stage (s : State) (i : Nat) : StageSt := s.stages.getD i default
+
+def initState (c : Cfg) : State :=
+  { stages := c.stages.map (fun sc => { tasks := sc.tasks.map (fun _ => {}) }) }
+
+/-! ## effects and transactions -/
+
+inductive Eff where
+  | setStage (i : Nat) (new : StageSt)     -- store_stage: whole row, version + 1
+  | setWf (st : Status)                    -- update_workflow_status
+  | setCanceled                            -- repository.cancel
+  | push (m : Msg)                         -- push_message / queue.push
+  | mark (id : Nat)                        -- mark_message_processed
+  deriving Repr
+
+abbrev Txn := List Eff
+
+def auditTasks (i : Nat) (old new : List TaskSt) : List AuditRow :=
+  ((List.range old.length).filterMap fun t =>
+    let o := (old.getD t default).status
+    let n := (new.getD t default).status
+    if o != n then some { ent := .task i t, old := o, new := n } else none)
+
+def applyEff (s : State) : Eff → State
+  | .setStage i new =>
+    let old := s.stage i
+    let new' := { new with version := old.version + 1 }
+    let a1 := if old.status != new.status then [{ ent := .stage i, old := old.status, new := new.status : AuditRow }] else []
+    { s with stages := s.stages.set i new', audit := s.audit ++ a1 ++ auditTasks i old.tasks new.tasks }
+  | .setWf st =>
+    let a := if s.wfStatus != st then [{ ent := .wf, old := s.wfStatus, new := st : AuditRow }] else []
+    { s with wfStatus := st, audit := s.audit ++ a }
+  | .setCanceled => { s with canceled := true }
+  | .push m => { s with queue := s.queue ++ [{ id := s.nextId, msg := m }], nextId := s.nextId + 1 }
+  | .mark id => if s.processed.contains id then s else { s with processed := s.processed ++ [id] }
+
+def applyTxn (s : State) (t : Txn) : State := t.foldl applyEff s
+def applyTxns (s : State) (ts : List Txn) : State := ts.foldl applyTxn s
+
+/-! ## pure helpers mirroring model methods -/
+
+/-- `StageExecution.failure_status(default)` -/
+def failureStatus (sc : StageCfg) (dflt : Status) : Status :=
+  if sc.cont then .failedContinue else if sc.failp then dflt else .stopped
+
+/-- `StageExecution.determine_status()` without synthetic stages; `cur` = stage.status -/
+def determineStatus (sc : StageCfg) (cur : Status) (ts : List Status) : Status :=
+  if ts.isEmpty then (if cur == .running then .succeeded else .notStarted)
+  else if ts.contains .terminal then failureStatus sc .terminal
+  else if ts.contains .stopped then .stopped
+  else if ts.contains .canceled then .canceled
+  else if ts.contains .paused then .paused
+  else if ts.contains .buffered then .buffered
+  else if ts.contains .suspended then .suspended
+  else if ts.any (fun s => s == .notStarted || s == .running) then .running
+  else if ts.all (fun s => s == .succeeded || s == .skipped || s == .failedContinue) then
+    (if ts.contains .failedContinue then .failedContinue else .succeeded)
+  else .running
+
+/-- `all_upstream_stages_complete` on the full execution -/
+def allUpContinuable (c : Cfg) (s : State) (i : Nat) : Bool :=
+  (c.reqs i).all (fun u => (s.stage u).status.isContinuable)
+
+/-- `CompleteWorkflowHandler._determine_final_status`: `some st` = final status, `none` = re-queue -/
+def finalStatus (c : Cfg) (s : State) (retry : Nat) : Option Status :=
+  let sts := s.stages.map (·.status)
+  if sts.all (·.isContinuable) then some .succeeded
+  else if sts.contains .terminal then some .terminal
+  else if sts.contains .canceled then some .canceled
+  else
+    let otherIncomplete := (List.range c.n).any (fun i =>
+      (s.stage i).status == .running || ((s.stage i).status == .notStarted && allUpContinuable c s i))
+    if sts.contains .stopped && !otherIncomplete then some .succeeded
+    else if retry ≥ c.waitMax then some .terminal
+    else none
+
+/-- ancestors (transitive requisites), fuel = number of stages -/
+def ancestorsAux (c : Cfg) : Nat → List Nat → List Nat
+  | 0, acc => acc
+  | fuel + 1, acc =>
+    let more := (acc.flatMap (c.reqs ·)).filter (fun r => !acc.contains r)
+    if more.isEmpty then acc else ancestorsAux c fuel (acc ++ more.eraseDups)
+
+def ancestors (c : Cfg) (i : Nat) : List Nat :=
+  (ancestorsAux c c.n (c.reqs i).eraseDups)
+
+/-- `get_merged_ancestor_outputs` for outputs whose keys are private to the producing stage
+    (`v<k>` is written by stage k only), so the merge order is irrelevant -/
+def mergedAncestorOutputs (c : Cfg) (s : State) (i : Nat) : KV :=
+  (ancestors c i).foldl (fun m a => KV.merge m (s.stage a).outputs) []
+
+/-- `_plan_stage`: ancestors first, then own context wins -/
+def plannedData (c : Cfg) (s : State) (i : Nat) (own : KV) : KV :=
+  KV.merge (mergedAncestorOutputs c s i) own
+
+def readyIn (c : Cfg) (s : State) (i : Nat) (bypass : Bool) : Ready.In :=
+  let sc := c.stage i
+  { join := sc.join, threshold := sc.threshold, joinFired := (s.stage i).joinFired,
+    activated := none, bypass := bypass,
+    ups := (c.reqs i).map (fun u => { ref := u, status := (s.stage u).status }) }
+
+def setTask (ts : List TaskSt) (t : Nat) (f : TaskSt → TaskSt) : List TaskSt :=
+  ts.set t (f (ts.getD t default))
+
+def outcomeAt (sc : StageCfg) (t n : Nat) : Outcome :=
+  let script := sc.tasks.getD t []
+  script.getD (min (n - 1) (script.length - 1)) .succ
+
+def getCount (s : State) (k : Nat × Nat) : Nat :=
+  match s.execCount.find? (fun e => e.1 == k) with
+  | some e => e.2
+  | none => 0
+
+def bumpCount (s : State) (k : Nat × Nat) : State :=
+  let n := getCount s k + 1
+  { s with execCount := (s.execCount.filter (fun e => e.1 != k)) ++ [(k, n)] }
+
+/-! ## handlers
+
+Each handler gets the durable state it reads, the row id of the message it handles, and returns
+the list of transactions it commits, in order (empty list = returns without writing).
+`runTask` additionally returns the world change (execution counter + ledger). -/
+
+def hStartWorkflow (c : Cfg) (s : State) (id : Nat) : List Txn :=
+  if s.wfStatus != .notStarted then []
+  else if s.canceled then []
+  else
+    let initial := (List.range c.n).filter (fun i => (c.reqs i).isEmpty)
+    if initial.isEmpty then [[.setWf .terminal, .mark id]]
+    else [[.setWf .running, .mark id] ++ initial.map (fun i => Eff.push (.startStage i 0))]
+
+/-- `_start_if_ready` after READY -/
+def startIfReady (c : Cfg) (s : State) (id i : Nat) (bypass : Bool) : List Txn :=
+  let sc := c.stage i
+  let st := s.stage i
+  -- the in-memory stage: `_jump_bypass` already deleted when it was set
+  let st0 := if bypass then { st with jumpBypass := false } else st
+  let zombie := st.status == .running && st.tasks.isEmpty
+  if st.status != .notStarted && !zombie then []
+  else if sc.enabled == some false then [[.mark id, .push (.skipStage i)]]
+  else
+    let claimed : StageSt := if st.status == .running then st0 else { st0 with status := .running, startSet := true }
+    let fired := sc.join == .discriminator || sc.join == .nOfM
+    let planned : StageSt :=
+      { claimed with joinFired := claimed.joinFired || fired, data := plannedData c s i claimed.data }
+    let next : Msg := if planned.tasks.isEmpty then .completeStage i else .startTask i 0
+    [[.setStage i claimed], [.setStage i planned, .mark id, .push next]]
+
+def hStartStage (c : Cfg) (s : State) (id i retry : Nat) : List Txn :=
+  let st := s.stage i
+  let bypass := st.jumpBypass
+  let r := Ready.evaluate (readyIn c s i bypass)
+  match r.phase with
+  | .ready => startIfReady c s id i bypass
+  | .skip => [[.push (.completeWorkflow 0)]]
+  | .notReady =>
+    let anyActive := (c.reqs i).any (fun u => (s.stage u).status.isActive)
+    if !r.active.isEmpty && anyActive then []
+    else if retry ≥ c.waitMax then
+      if Status.canTransition st.status .terminal then
+        [[.setStage i { st with status := .terminal, hasEx := true, jumpBypass := false }, .push (.completeStage i)]]
+      else
+        -- InvalidStateTransitionError → `do_mark_error` on the fresh stage
+        [[.setStage i { st with hasEx := true }, .push (.completeStage i)]]
+    else [[.push (.startStage i (retry + 1))]]
+
+def hStartTask (_c : Cfg) (s : State) (id i t : Nat) : List Txn :=
+  let st := s.stage i
+  let task := st.tasks.getD t default
+  if task.status != .notStarted then [[.mark id]]
+  else
+    [[.setStage i { st with tasks := setTask st.tasks t (fun _ => { status := .running, started := true }) },
+      .mark id, .push (.runTask i t)]]
+
+/-- `process_result` on the reloaded stage `st` -/
+def processResult (c : Cfg) (st : StageSt) (id i t n : Nat) (oc : Outcome) : List Txn :=
+  let sc := c.stage i
+  let withOut : StageSt := { st with outputs := KV.set st.outputs i n }
+  match oc with
+  | .running => [[.setStage i st, .push (.runTask i t)]]
+  | .jump tgt => [[.setStage i withOut, .mark id, .push (.jumpToStage i tgt), .push (.completeTask i t .redirect)]]
+  | .succ => [[.setStage i withOut, .mark id, .push (.completeTask i t .succeeded)]]
+  | .redirect => [[.setStage i st, .mark id, .push (.completeTask i t .redirect)]]
+  | .skipped => [[.setStage i st, .mark id, .push (.completeTask i t .skipped)]]
+  | .failedContinue => [[.setStage i st, .mark id, .push (.completeTask i t .failedContinue)]]
+  | .stopped => [[.setStage i st, .mark id, .push (.completeTask i t .stopped)]]
+  | .suspend =>
+    if st.buffered > 0 then
+      [[.setStage i { st with buffered := st.buffered - 1, status := .running,
+                              tasks := setTask st.tasks t (fun x => { x with status := .running }) },
+        .mark id, .push (.runTask i t)]]
+    else
+      [[.setStage i { st with status := .suspended,
+                              tasks := setTask st.tasks t (fun x => { x with status := .suspended }) }, .mark id]]
+  | .canceled => [[.setStage i st, .mark id, .push (.completeTask i t (failureStatus sc .canceled))]]
+  | .terminal => [[.setStage i st, .mark id, .push (.completeTask i t (failureStatus sc .terminal))]]
+  | .transient => []   -- handled by the caller (needs message attempts)
+  | .permanent => [[.setStage i { st with hasEx := true }, .mark id, .push (.completeTask i t (failureStatus sc .terminal))]]
+
+/-- RunTask: returns (transactions, executed?) -/
+def hRunTask (c : Cfg) (s : State) (id i t attempts : Nat) : List Txn × Bool :=
+  let st := s.stage i
+  let task := st.tasks.getD t default
+  if task.status != .running then ([[.mark id]], false)
+  else if s.canceled then ([[.mark id, .push (.completeTask i t .canceled)]], false)
+  else if s.wfStatus.isComplete then ([[.mark id, .push (.completeTask i t .canceled)]], false)
+  else
+    let n := getCount s (i, t) + 1
+    let oc := outcomeAt (c.stage i) t n
+    match oc with
+    | .transient =>
+      if attempts + 1 < c.maxAttempts then ([[.push (.runTask i t)]], true)
+      else ([[.setStage i { st with hasEx := true }, .mark id,
+              .push (.completeTask i t (failureStatus (c.stage i) .terminal))]], true)
+    | _ => (processResult c st id i t n oc, true)
+
+def hCompleteTask (_c : Cfg) (s : State) (id i t : Nat) (status : Status) : List Txn :=
+  let st := s.stage i
+  let task := st.tasks.getD t default
+  if task.status != .running then [[.mark id]]
+  else
+    let st' := { st with tasks := setTask st.tasks t (fun x => { x with status := status }) }
+    if status == .redirect then [[.setStage i st', .mark id]]
+    else if t + 1 < st.tasks.length then [[.setStage i st', .mark id, .push (.startTask i (t + 1))]]
+    else [[.setStage i st', .mark id, .push (.completeStage i)]]
+
+/-- `_update_join_tracking`: one auto-commit store per downstream discriminator / N-of-M stage -/
+def joinTracking (c : Cfg) (s : State) (i : Nat) : List Txn :=
+  (c.down i).filterMap fun d =>
+    let j := (c.stage d).join
+    if j == .discriminator || j == .nOfM then
+      let ds := s.stage d
+      if ds.completed.contains i then none
+      else some [.setStage d { ds with completed := ds.completed ++ [i] }]
+    else none
+
+def hCompleteStage (c : Cfg) (s : State) (id i : Nat) : List Txn :=
+  let sc := c.stage i
+  let st := s.stage i
+  if st.status == .notStarted then [[.mark id]]
+  else if st.status != .running then
+    if st.status.isHalt then [[.mark id, .push (.completeWorkflow 0)]] else []
+  else
+    let status := determineStatus sc st.status (st.tasks.map (·.status))
+    if status == .running then [[.mark id]]
+    else if !Status.canTransition st.status status then
+      -- set_stage_status raises; generic error branch: TERMINAL + CancelStage + CompleteWorkflow
+      [[.setStage i { st with status := .terminal, hasEx := true }, .push (.cancelStage i), .push (.completeWorkflow 0)]]
+    else
+      let st' := { st with status := status }
+      if status == .succeeded || status == .failedContinue || status == .skipped then
+        let down := c.down i
+        let cont : List Eff := if down.isEmpty then [.push (.completeWorkflow 0)] else down.map (fun d => .push (.startStage d 0))
+        joinTracking c s i ++ [[.setStage i st', .mark id] ++ cont]
+      else
+        [[.setStage i st', .push (.cancelStage i), .push (.completeWorkflow 0)]]
+
+def hSkipStage (c : Cfg) (s : State) (id i : Nat) : List Txn :=
+  let st := s.stage i
+  if st.status != .notStarted then []
+  else
+    let down := c.down i
+    let cont : List Eff := if down.isEmpty then [.push (.completeWorkflow 0)] else down.map (fun d => .push (.startStage d 0))
+    [[.setStage i { st with status := .skipped }, .mark id] ++ cont]
+
+def hCancelStage (_c : Cfg) (s : State) (id i : Nat) : List Txn :=
+  let st := s.stage i
+  if st.status.isComplete then []
+  else
+    let tasks := st.tasks.map (fun x => if x.status == .notStarted || x.status == .running then { x with status := .canceled } else x)
+    [[.setStage i { st with status := .canceled, tasks := tasks }, .mark id]]
+
+/-- `set_workflow_status` raises `InvalidStateTransitionError` (e.g. NOT_STARTED → SUCCEEDED):
+    the processor then reschedules the message instead of acking it -/
+def completeWorkflowRaises (c : Cfg) (s : State) (retry : Nat) : Bool :=
+  !s.wfStatus.isComplete &&
+    match finalStatus c s retry with
+    | none => false
+    | some status => !Status.canTransition s.wfStatus status
+
+def hCompleteWorkflow (c : Cfg) (s : State) (id retry : Nat) : List Txn :=
+  if s.wfStatus.isComplete then []
+  else match finalStatus c s retry with
+    | none => [[.push (.completeWorkflow (retry + 1))]]
+    | some status =>
+      if !Status.canTransition s.wfStatus status then [] else
+      let running := if status != .succeeded then (List.range c.n).filter (fun i => (s.stage i).status == .running) else []
+      [[.setWf status, .mark id] ++ running.map (fun i => .push (.cancelStage i))]
+
+def hCancelWorkflow (c : Cfg) (s : State) (id : Nat) : List Txn :=
+  if s.wfStatus.isComplete then [[.mark id]]
+  else
+    let toCancel := (List.range c.n).filter (fun i => !(s.stage i).status.isComplete)
+    [[.setCanceled], [.mark id] ++ toCancel.map (fun i => .push (.cancelStage i)) ++ [.push (.completeWorkflow 0)]]
+
+/-- `reset_stage_for_retry` -/
+def resetForRetry (st : StageSt) : StageSt :=
+  { st with status := .notStarted, startSet := false, outputs := [], joinFired := false, completed := [],
+            tasks := st.tasks.map (fun _ => {}) }
+
+def hJumpToStage (c : Cfg) (s : State) (id src tgt : Nat) : List Txn :=
+  let source := s.stage src
+  let sc := c.stage src
+  if tgt ≥ c.n then
+    -- target not found: source TERMINAL (+ RUNNING tasks TERMINAL), CompleteStage
+    [[.setStage src { source with status := .terminal,
+                                  tasks := source.tasks.map (fun x => if x.status == .running then { x with status := .terminal } else x) },
+      .mark id, .push (.completeStage src)]]
+  else
+    let count : Int := source.jumpCount.getD 0
+    let maxj := Jump.effectiveMax c.wfMaxj sc.maxj
+    if !Jump.jumpAccepted count maxj then
+      [[.setStage src { source with status := .terminal,
+                                    tasks := source.tasks.map (fun x => if x.status == .running then { x with status := .terminal } else x) },
+        .mark id, .push (.completeStage src)]]
+    else
+      let g := c.graph
+      let selfLoop := src == tgt
+      let backward := Jump.isBackward g src tgt
+      let newCount := count + 1
+      let resets := (Jump.resettable g tgt).filter (fun d => d != src && d != tgt)
+      let skips := if backward then [] else (Jump.skipped g src tgt).filter (fun k => (s.stage k).status == .notStarted)
+      let e1 : List Eff := resets.map (fun d => .setStage d (resetForRetry (s.stage d)))
+      let e2 : List Eff := skips.map (fun k =>
+        let ks := s.stage k
+        .setStage k { ks with status := .skipped, tasks := ks.tasks.map (fun x => { x with status := .skipped }) })
+      let e3 : List Eff :=
+        if selfLoop then []
+        else if backward then [.setStage src { resetForRetry source with jumpCount := some newCount }]
+        else [.setStage src { source with status := .succeeded, jumpCount := some newCount,
+                                          tasks := source.tasks.map (fun x => if x.status == .running then { x with status := .succeeded } else x) }]
+      -- the target's context is the copy taken from the full execution BEFORE the transaction
+      let target := s.stage tgt
+      let e4 : List Eff := [.setStage tgt { resetForRetry target with jumpBypass := true, jumpCount := some newCount }]
+      [e1 ++ e2 ++ e3 ++ e4 ++ [.mark id, .push (.startStage tgt 0)]]
+
+def hSignalStage (_c : Cfg) (s : State) (id i : Nat) (persistent : Bool) : List Txn :=
+  let st := s.stage i
+  if st.status == .suspended then
+    match (List.range st.tasks.length).find? (fun t => (st.tasks.getD t default).status == .suspended) with
+    | some t =>
+      [[.setStage i { st with status := .running, tasks := setTask st.tasks t (fun x => { x with status := .running }) },
+        .mark id, .push (.runTask i t)]]
+    | none => [[.setStage i { st with status := .running }, .mark id, .push (.startStage i 0)]]
+  else if persistent then [[.setStage i { st with buffered := st.buffered + 1 }, .mark id]]
+  else [[.mark id]]
+
+/-- does the handler raise (the processor reschedules instead of mark + ack)? -/
+def raises (c : Cfg) (s : State) (row : Row) : Bool :=
+  match row.msg with
+  | .completeWorkflow r => completeWorkflowRaises c s r
+  | _ => false
+
+/-- dispatch; the Bool says whether a task execution happened (RunTask only) -/
+def handle (c : Cfg) (s : State) (row : Row) : List Txn × Bool :=
+  match row.msg with
+  | .startWorkflow => (hStartWorkflow c s row.id, false)
+  | .startStage i r => (hStartStage c s row.id i r, false)
+  | .startTask i t => (hStartTask c s row.id i t, false)
+  | .runTask i t => hRunTask c s row.id i t row.attempts
+  | .completeTask i t st => (hCompleteTask c s row.id i t st, false)
+  | .completeStage i => (hCompleteStage c s row.id i, false)
+  | .skipStage i => (hSkipStage c s row.id i, false)
+  | .cancelStage i => (hCancelStage c s row.id i, false)
+  | .completeWorkflow r => (hCompleteWorkflow c s row.id r, false)
+  | .cancelWorkflow => (hCancelWorkflow c s row.id, false)
+  | .jumpToStage a b => (hJumpToStage c s row.id a b, false)
+  | .signalStage i p => (hSignalStage c s row.id i p, false)
+
+/-! ## operations (what the harness can do to the engine) -/
+
+inductive Op where
+  | deliver (id : Nat)          -- poll-claim, handle, processor mark, ack
+  | deliverNoAck (id : Nat)     -- poll-claim, handle; the worker dies before mark + ack
+  | cancel                      -- Orchestrator.cancel
+  | signal (s : Nat) (persistent : Bool)
+  deriving Repr
+
+def claimRow (s : State) (id : Nat) : State :=
+  { s with queue := s.queue.map (fun r => if r.id == id then { r with attempts := r.attempts + 1 } else r) }
+
+def ackRow (s : State) (id : Nat) : State := { s with queue := s.queue.filter (fun r => r.id != id) }
+
+def recordExec (c : Cfg) (s : State) (row : Row) : State :=
+  match row.msg with
+  | .runTask i t =>
+    let s1 := bumpCount s (i, t)
+    let _ := c
+    { s1 with ledger := s1.ledger ++ [{ s := i, t := t, n := getCount s1 (i, t), seen := (s.stage i).data }] }
+  | _ => s
+
+def step (c : Cfg) (s : State) : Op → State
+  | .deliver id =>
+    match s.queue.find? (fun r => r.id == id) with
+    | none => s
+    | some row0 =>
+      let s1 := claimRow s id
+      let row := { row0 with attempts := row0.attempts + 1 }
+      if s1.processed.contains id then ackRow s1 id
+      else
+        let (txns, ran) := handle c s1 row
+        let s2 := if ran then recordExec c s1 row else s1
+        let s3 := applyTxns s2 txns
+        if raises c s1 row then s3 else ackRow (applyEff s3 (.mark id)) id
+  | .deliverNoAck id =>
+    match s.queue.find? (fun r => r.id == id) with
+    | none => s
+    | some row0 =>
+      let s1 := claimRow s id
+      let row := { row0 with attempts := row0.attempts + 1 }
+      if s1.processed.contains id then s1
+      else
+        let (txns, ran) := handle c s1 row
+        let s2 := if ran then recordExec c s1 row else s1
+        applyTxns s2 txns
+  | .cancel => applyEff s (.push .cancelWorkflow)
+  | .signal i p => applyEff s (.push (.signalStage i p))
+
+def start (c : Cfg) : State := applyEff (initState c) (.push .startWorkflow)
+
+def run (c : Cfg) (ops : List Op) : State := ops.foldl (step c) (start c)
+
+/-- all intermediate states, for the trace differential -/
+def trace (c : Cfg) : State → List Op → List State
+  | _, [] => []
+  | s, op :: ops => let s' := step c s op; s' :: trace c s' ops
+
+
+/-! ## text protocol
+
+`engine <spec> <ops>`
+  spec = `<wfmaxj>#<stage>#...`, stage = `reqs/JOIN/threshold/cont/failp/enabled/maxj/tasks`,
+         tasks = `o.o.o+o.o` (`-` = no tasks), outcome letters as in `harness/engine.py`
+  ops  = comma separated: `d<id>` deliver, `x<id>` deliver without mark+ack, `c` cancel,
+         `g<s>.<0|1>` signal stage s (persistent?)
+  answer = state line after every op joined by `|`, then `|A=<audit>|L=<ledger>` -/
+
+def parseOutcome (s : String) : Option Outcome :=
+  match s with
+  | "S" => some .succ | "T" => some .terminal | "F" => some .failedContinue | "P" => some .stopped
+  | "C" => some .canceled | "K" => some .skipped | "D" => some .redirect | "R" => some .running
+  | "U" => some .suspend | "E" => some .transient | "X" => some .permanent
+  | _ => if s.startsWith "J" then (Parse.nat? (s.drop 1).toString).map Outcome.jump else none
+
+def optNat? (s : String) : Option (Option Nat) :=
+  if s == "-" then some none else (Parse.nat? s).map some
+
+def optInt? (s : String) : Option (Option Int) :=
+  if s == "-" then some none else (Parse.int? s).map some
+
+def parseStage (s : String) : Option StageCfg :=
+  match s.splitOn "/" with
+  | [reqs, join, th, cont, failp, en, maxj, tasks] => do
+    let reqs ← Parse.natList? reqs
+    let join ← JoinType.ofName? join
+    let threshold ← Parse.int? th
+    let cont ← Parse.bool? cont
+    let failp ← Parse.bool? failp
+    let enabled ← (if en == "-" then some none else (Parse.bool? en).map some)
+    let maxj ← optInt? maxj
+    let tasks ← (if tasks == "-" then some [] else
+      Parse.all? (fun t => Parse.all? parseOutcome (t.splitOn ".")) (tasks.splitOn "+"))
+    pure { reqs, join, threshold, cont, failp, enabled, maxj, tasks }
+  | _ => none
+
+def parseCfg (s : String) : Option Cfg :=
+  match s.splitOn "#" with
+  | wf :: stages => do
+    let wfMaxj ← optInt? wf
+    let stages ← Parse.all? parseStage stages
+    pure { wfMaxj, stages }
+  | [] => none
+
+def parseOp (s : String) : Option Op :=
+  if s == "c" then some .cancel
+  else if s.startsWith "d" then (Parse.nat? (s.drop 1).toString).map Op.deliver
+  else if s.startsWith "x" then (Parse.nat? (s.drop 1).toString).map Op.deliverNoAck
+  else if s.startsWith "g" then
+    match ((s.drop 1).toString).splitOn "." with
+    | [a, b] => do pure (.signal (← Parse.nat? a) (← Parse.bool? b))
+    | _ => none
+  else none
+
+def showKV (m : KV) : String :=
+  if m.isEmpty then "-" else Parse.joinWith "," (m.map (fun kv => s!"{kv.1}:{kv.2}"))
+
+def b01 (b : Bool) : String := if b then "1" else "0"
+
+def showMsg : Msg → String
+  | .startWorkflow => "SW"
+  | .startStage s r => s!"SS.{s}.{r}"
+  | .startTask s t => s!"ST.{s}.{t}"
+  | .runTask s t => s!"RT.{s}.{t}"
+  | .completeTask s t st => s!"CT.{s}.{t}.{st.name}"
+  | .completeStage s => s!"CS.{s}"
+  | .skipStage s => s!"SK.{s}"
+  | .cancelStage s => s!"XS.{s}"
+  | .completeWorkflow r => s!"CW.{r}"
+  | .cancelWorkflow => "XW"
+  | .jumpToStage a b => s!"JS.{a}.{b}"
+  | .signalStage s p => s!"SG.{s}.{b01 p}"
+
+def showStage (i : Nat) (st : StageSt) : String :=
+  let tasks := if st.tasks.isEmpty then "-" else
+    Parse.joinWith "." (st.tasks.map (fun t => t.status.name ++ (if t.started then "*" else "")))
+  let jc := match st.jumpCount with | some n => toString n | none => "-"
+  s!"S{i}={st.status.name},v{st.version},st{b01 st.startSet},{tasks},jf{b01 st.joinFired}jb{b01 st.jumpBypass}ex{b01 st.hasEx},cb{Parse.showNats st.completed},jc{jc},bs{st.buffered},d{showKV st.data},o{showKV st.outputs}"
+
+def showState (s : State) : String :=
+  let stages := (List.range s.stages.length).map (fun i => showStage i (s.stage i))
+  let q := if s.queue.isEmpty then "-" else
+    Parse.joinWith "," (s.queue.map (fun r => s!"{r.id}:{showMsg r.msg}/{r.attempts}"))
+  let p := Parse.showNats (s.processed.mergeSort (· ≤ ·))
+  Parse.joinWith ";" ([s!"W={s.wfStatus.name},{b01 s.canceled}"] ++ stages ++ [s!"Q={q}", s!"P={p}"])
+
+def showEnt : Ent → String
+  | .wf => "W" | .stage s => s!"S{s}" | .task s t => s!"T{s}.{t}"
+
+def showAudit (a : List AuditRow) : String :=
+  if a.isEmpty then "-" else Parse.joinWith "," (a.map (fun r => s!"{showEnt r.ent}:{r.old.name}>{r.new.name}"))
+
+def showLedger (l : List Exec) : String :=
+  if l.isEmpty then "-" else
+    Parse.joinWith "," (l.map (fun e =>
+      let seen := Parse.joinWith "+" (e.seen.map (fun kv => s!"{kv.1}:{kv.2}"))
+      s!"{e.s}.{e.t}.{e.n}[{seen}]"))
+
+def drive (rest : String) : String :=
+  match rest.splitOn " " with
+  | [spec, ops] =>
+    match parseCfg spec, (if ops == "-" then some [] else Parse.all? parseOp (ops.splitOn ",")) with
+    | some c, some ops =>
+      let s0 := start c
+      let states := trace c s0 ops
+      let final := states.getLastD s0
+      Parse.joinWith "|" ((s0 :: states).map showState ++ [s!"A={showAudit final.audit}", s!"L={showLedger final.ledger}"])
+    | _, _ => "bad-request"
+  | _ => "bad-request"
 
 end Stab.Engine
